@@ -9,4 +9,5 @@ package description
 //@   opt safety-tag=C12
 //@   ensures[C12] err == nil ==> ret != nil
 //@   ensures[C12] err != nil ==> ret == nil
+//@   ensures[C20] err == nil ==> ret != nil
 //@   modifies fresh
